@@ -127,7 +127,7 @@ def run(ctx):
         wf, spec = s.split('\t')
         name, t, tgt = meta[i]
         if wf != '1':
-            if name == 'apparmor.d/groups/freedesktop/packagekitd' and go[i] != 'ok\t' + spec:
+            if name.endswith('/packagekitd') and go[i] != 'ok\t' + spec:
                 # K_rawSubstring: `  #aa:only opensuse` is contained in `    #aa:only opensuse`
                 if ctx.known_finding('K_rawSubstring'):
                     nknown += 1
